@@ -29,7 +29,7 @@ def entry_ends(doc):
     return [m.end() for m in re.finditer(r"</item>|</entry>", doc)]
 
 
-DAMAGE = ["truncate", "unclosed", "mismatch", "stray-lt", "stray-amp", "undefined-entity", "garbage", "entity-between", "nul", "bad-attr", "stray-entry-end", "garbage-bytes"]
+DAMAGE = ["truncate", "unclosed", "mismatch", "stray-lt", "stray-amp", "undefined-entity", "garbage", "entity-between", "nul", "bad-attr", "stray-entry-end", "garbage-bytes", "broken-next-start"]
 GARBAGE_BYTES = b"\x9d\xff\xfe\x81 garbage"          # not decodable as UTF-8: appended at the byte level
 
 
@@ -46,6 +46,14 @@ def damage(rng, doc, pos, kind):
         # an unmatched entry end tag directly after the k-th complete entry (whatever follows -- metadata, further entries -- is parsed with it in effect)
         m = re.search(r"</(item|entry)>$", doc[:pos])
         return doc[:pos] + (m.group(0) if m else "</item>") + doc[pos:]
+    if kind == "broken-next-start":
+        # the START tag of the entry that follows the k-th complete one is destroyed (a stray & or < right after its '<', or inside its name): its children
+        # arrive without an entry having been opened -- they must not be written into the complete entries
+        m = re.search(r"<(item|entry)\b", doc[pos:])
+        if not m:
+            return doc[:pos] + " < " + doc[pos:]
+        at = pos + m.start() + rng.choice([1, 1, 3])
+        return doc[:at] + rng.choice(["&", "<", "& "]) + doc[at:]
     # insert something at a random position at or after pos
     ins = pos + (rng.randrange(0, len(tail)) if tail and rng.random() < 0.7 else 0)
     # keep insertion outside of tags for the text-level damages
@@ -63,6 +71,28 @@ FORMS = ["bytes", "bytesio", "str", "stringio", "bytesio-offset"]
 # bytesio-offset: the caller's stream holds ANOTHER complete feed before the document and is positioned at the document's first byte
 PRECEDING = b'<rss version="2.0"><channel><title>another feed</title><item><title>alpha 0</title><guid>urn:alpha:0</guid></item><item><title>alpha 1</title><guid>urn:alpha:1</guid></item></channel></rss>\n'
 CJK = ["中文标题", "日本語のテキスト", "한국어 텍스트", "plain", "über naïve café", "标题 two", "x"]
+
+
+def content_feed(rng):
+    """entries that carry a full-content element (Atom <content>, a SECOND <summary> / <description>, <content:encoded>) at a random position among their children:
+    the handlers of these leave state behind (element stack frames, hasContent, _summaryKey) that the NEXT entry's start tag normally resets"""
+    atom = rng.random() < 0.6
+    n = rng.randint(2, 5)
+    out = []
+    for i in range(n):
+        kids = ["<title>Title %d</title>" % i, ("<id>urn:example:entry:%d</id>" if atom else "<guid>urn:example:entry:%d</guid>") % i,
+                ('<link rel="alternate" type="text/html" href="http://example.org/%d.html"/>' if atom else "<link>http://example.org/%d.html</link>") % i,
+                ("<updated>2020-01-0%dT00:00:00Z</updated>" if atom else "<pubDate>Thu, 0%d Jan 2020 00:00:00 GMT</pubDate>") % (i + 1),
+                ('<category term="topic%d"/>' if atom else "<category>topic%d</category>") % i]
+        body = rng.choice(['<content type="text">Body of entry %d</content>', "<summary>first %d</summary><summary>second</summary>", '<content type="html">Body %d</content><summary>s</summary>'] if atom else
+                          ["<description>first %d</description><description>second</description>", '<content:encoded xmlns:content="http://purl.org/rss/1.0/modules/content/">Body %d</content:encoded>',
+                           "<description>d %d</description>"]) % i
+        kids.insert(rng.randint(0, len(kids)), body)
+        out.append(("<entry>%s</entry>\n" if atom else "<item>%s</item>\n") % "".join(kids))
+    if atom:
+        return ('<?xml version="1.0" encoding="utf-8"?>\n<feed xmlns="http://www.w3.org/2005/Atom"><title>Example feed</title><id>urn:example:feed</id><updated>2020-01-09T00:00:00Z</updated>\n'
+                + "".join(out) + "</feed>\n")
+    return '<?xml version="1.0" encoding="utf-8"?>\n<rss version="2.0"><channel><title>Example feed</title><link>http://example.org/</link>\n' + "".join(out) + "</channel></rss>\n"
 
 
 def deliver(doc, form, tail=b""):
@@ -209,7 +239,10 @@ def search(ctx, focus=None):
                                     pad_reps=rng.choice([300, 700, 1500, 4000]), texts=CJK)
         elif r < 0.4:
             doc = feedgen.vocab_doc(rng, fmt=rng.choice(["rss20", "atom10"]), nentries=rng.randint(2, 6), meta_between=True)
-        elif r < 0.5:
+        elif r < 0.52:
+            big = False
+            doc = content_feed(rng)
+        elif r < 0.6:
             # texts with CRLF line ends / tabs (the two back ends normalise them differently: what comes back must be the FALLBACK parser's reading)
             doc = feedgen.vocab_doc(rng, nentries=rng.randint(2, 5), texts=feedgen.PLAIN + ["first line\r\nsecond line", "a\r\nb\r\nc", "tab\there\r\n"])
         else:
@@ -218,7 +251,7 @@ def search(ctx, focus=None):
         for k, pos in enumerate(ends, 1):
             if rng.random() < (0.4 if ctx.thorough else 0.75) and len(ends) > 2:
                 continue
-            for kind in (DAMAGE if ctx.thorough else rng.sample(DAMAGE, 4)):
+            for kind in (DAMAGE if ctx.thorough else list(dict.fromkeys(rng.sample(DAMAGE, 4) + ["broken-next-start"]))):
                 form = rng.choice(FORMS) if not big else rng.choice(["str", "stringio", "bytes", "bytesio-offset", "bytesio"])
                 if kind == "garbage-bytes" and form in ("str", "stringio"):
                     form = rng.choice(["bytes", "bytesio", "bytesio-offset"])
@@ -230,8 +263,8 @@ def search(ctx, focus=None):
     return {"evaluations": n, "distinct_nontrivial": len(distinct), "failures": failures, "distribution": dist,
             "rule": "well-formed reference-free feeds (RSS 2.0 / RSS 1.0 / Atom 1.0 over core + dc/dcterms/itunes/media/georss/content/slash/wfw/unknown extension "
                     "elements, 2-6 entries, a quarter of them padded beyond the 8 KiB / 64 KiB prefix sizes; a fifth with CJK / accented text and padding so that character and byte offsets "
-                    "drift apart; a fifth with feed-level metadata between and after the entries) x every k x damage kinds {an unmatched entry end tag directly after the k-th entry, truncate, unclosed tag, mismatched "
-                    "end tag, stray <, stray &, undefined entity in text, entity reference directly after the k-th end tag, garbage appended (text, or bytes that are not UTF-8), NUL, duplicate attribute} "
+                    "drift apart; a fifth with feed-level metadata between and after the entries; an eighth whose entries carry full-content elements -- Atom content, a second summary / description, content:encoded -- at random positions) x every k x damage kinds {an unmatched entry end tag directly after the k-th entry, truncate, unclosed tag, mismatched "
+                    "end tag, stray <, stray &, undefined entity in text, entity reference directly after the k-th end tag, garbage appended (text, or bytes that are not UTF-8), NUL, duplicate attribute, the NEXT entry's start tag destroyed by a stray & / <} "
                     "at random positions after the k-th entry x delivery {bytes, BytesIO, str, StringIO, a BytesIO positioned at the document after ANOTHER feed}; oracle: bozo set (when expat rejects the damaged document) "
                     "and entries[:k] equal to the loose-mode result of the undamaged document; distinct = distinct (damaged document, delivery form)",
             "samples": [{"kind": "mismatch", "k": 1}]}
